@@ -4,15 +4,21 @@ import props.c01 as c01
 from common import tokens_close
 
 ID = "C02"
-TARGETS = ["Proofs.C02"]
+TARGETS = ["Proofs.C02", "Proofs.DataRefine"]
 GEN_PREFIXES = []
 THEOREMS = {"Proofs.C02": ["VerifModel.C02." + t for t in [
-    "C02_index_correct", "C02_cut_is_lookup", "C02_indicesOf", "C02_index_is_lookup", "C02_perm_lookup"]]}
+    "C02_index_correct", "C02_cut_is_lookup", "C02_indicesOf", "C02_index_is_lookup", "C02_perm_lookup"]],
+    "Proofs.DataRefine": ["VerifModel.DataRefine." + t for t in [
+        "getScores_refines", "specScores_invariant", "C02_order_irrelevant", "reindex_equiv",
+        "C02_reordered_inputs", "C02_permuted_inputs"]]}
 TRUSTED_BASE = c01.TRUSTED_BASE + [
     "text path: verif.input.Text on files written by harness/datagen.write_text (random column and row order)"]
 ASSUMPTIONS = ["NoDup: no coordinate value is repeated inside one input (with repeats the first occurrence is used, "
-               "which is order dependent by nature; that path is covered by C02_index_correct only)",
-               "MetaAgree: location metadata agree between files (they are taken from the first file)"]
+               "which is order dependent by nature; getScores_refines itself holds with repeats, the order-irrelevance "
+               "corollaries C02_reordered_inputs / reindex_equiv need NoDupCoords)",
+               "MetaAgree: location metadata agree between files (they are taken from the first file)",
+               "getScores_refines / C02_order_irrelevant: Data.init succeeds, arrays have the declared shapes (wfInput); "
+               "C02_permuted_inputs: the first input stays first and stores the observations"]
 RULE = ("data.req on datasets whose inputs list dimension entries in random, mutually different orders (a quarter of them "
         "with -d/-tod/-l/… subsets); "
         "data.perm: each dataset is re-submitted with every input's time/lead/location entries shuffled and the inputs "
@@ -22,8 +28,15 @@ EXHAUSTIVE = {"quick": False, "thorough": False}
 LEVEL_TEXT = ("Lean theorems: the index used for a common coordinate value is the first position holding that value in the "
               "input's own coordinate list; cutting is a lookup at those indices; index access equals lookup by value in "
               "the (coordinate, data) association list, and that lookup is invariant under any permutation of the list "
-              "when no coordinate repeats. Tied to the real code by correspondence incl. a permutation layer and a "
-              "text-file path.")
+              "when no coordinate repeats. End to end (Proofs/DataRefine.lean): getScores_refines proves that every "
+              "request to the index-based model returns the coordinate-based specification Spec/DataCoord.lean (values "
+              "looked up by coordinate value); the specification depends on an input only through its coordinate function "
+              "(specScores_invariant), hence C02_order_irrelevant: datasets with equivalent inputs get the same verified "
+              "dimensions and the same answer to every request; concretely, listing any input's times / lead times / "
+              "locations in another order with the data moved along (C02_reordered_inputs, NoDup) and giving the scored "
+              "inputs other than the first in another order (C02_permuted_inputs) changes nothing. Tied to the real code "
+              "by correspondence incl. a permutation layer and a text-file path; the Lean specification is evaluated "
+              "next to the Python oracle on every data op.")
 TECHNIQUE = c01.TECHNIQUE
 
 
@@ -46,6 +59,12 @@ def gen_ops(tier, rng):
                 reqs2 = [r for r in reqs if "pit" not in r[0]][:10]
                 if all("fcst" in I["fields"] for I in ds2.inputs):
                     yield "data.text", dg.enc_op(ds2, reqs2, head="datatxt %d" % rng.randrange(10 ** 6))
+
+
+def spec_op(op):
+    if op.startswith("datatxt "):
+        return c01.spec_op(" ".join(["data"] + op.split(" ")[2:]))
+    return c01.spec_op(op)
 
 
 def impl(op):
